@@ -910,7 +910,7 @@ pub fn run_bit_extremes(ctx: &mut Ctx) {
     }
     small::<U1099511627776>(ctx, "BL2^40");
     small::<CapMax>(ctx, "BLusizeMAX");
-    if ctx.thorough {
+    {
         // a bitlist whose length does not fit 32 bits: 2^29 + 1 bytes, delimiter in the last byte
         let n = (1usize << 29) + 1;
         let mut b = vec![0u8; n];
